@@ -1349,6 +1349,8 @@ def c17_closure(tier, seed):
     # two rules that give the same new species from one reactant; seeds that carry an atom above its default valence (the valence
     # filter applies to generated species: a seed is always part of the answer)
     rulesets += [['CH', 'OH']]
+    rulesets += [[], ['CH', 'CCnr']]          # no rule at all (the closure is the seeds); a rule whose SMARTS uses a ring primitive (needs ring information on products)
+    rules['CCnr'] = '[C:1]!@[C:2]>>[C:1].[C:2]'
     seedsets += [['CC', 'CC'], ['C', 'CC', 'C']]          # the same species given twice among the seeds
     seedsets += [['[C-]#[O+]'], ['C[N+](=O)[O-]'], ['CS(C)=O', 'C']] if tier != 'quick' else [['[C-]#[O+]', 'C'], ['C[N+](=O)[O-]']]
     viol, n, distinct, samples = [], 0, 0, []
@@ -1388,6 +1390,7 @@ def c17_closure(tier, seed):
                             a.SetNoImplicit(True)
                             a.UpdatePropertyCache(strict=False)
                         Chem.AssignRadicals(p)
+                        Chem.FastFindRings(p)          # products of RunReactants carry no ring information; ring primitives in a rule need it
                         if any(pt.GetDefaultValence(a.GetAtomicNum()) < a.GetTotalValence() for a in p.GetAtoms()):
                             continue
                         k = key(p)
@@ -1397,9 +1400,18 @@ def c17_closure(tier, seed):
             if len(seen) > 400:
                 break
         return set(seen)
+    # seeds that differ only in charge are different species (both are part of the answer)
+    seedsets += [['N', '[NH3+]']]
+    rules['NH'] = '[N:1][H:2]>>[N:1].[H:2]'
+    rules['CN'] = '[C:1][N:2]>>[C:1].[N:2]'
+    rules['UP'] = '[C:1][C:2]>>[C:1]=[C:2]'
+    # deterministic cases of the recorded findings K8 (the generator's species comparison ignores charge and isotope: a generated species that
+    # differs from a listed one only in these is dropped) and K9 (an aromatic seed and its generated Kekule form are listed as two species)
+    known_cases = [(['[2H]C'], ['CH'], 'K8:lax-species-identity'), (['C[NH3+]', 'N'], ['CN'], 'K8:lax-species-identity'), (['N', '[NH4+]'], ['NH'], 'K8:lax-species-identity'),
+                   (['c1ccccc1', 'C1=C[CH][CH]C=C1'], ['UP'], 'K9:kekule-form-listed-twice')]
     with real.quiet():
-        for seeds in seedsets:
-            for rs in rulesets:
+        for seeds, rs, kcls in [(s_, r_, None) for s_ in seedsets for r_ in rulesets] + known_cases:
+            if True:
                 n += 1
                 try:
                     net = GenerateRxnNet(list(seeds), [rules[r] for r in rs])
@@ -1420,7 +1432,9 @@ def c17_closure(tier, seed):
                         bad = 'species set differs: missing %s, extra %s' % (sorted(wk - set(gk)), sorted(set(gk) - wk))
                     elif not all((Chem.MolToSmiles(Chem.MolFromSmiles(s)) in set(gk)) for s in seeds):
                         bad = 'a seed is missing'
-                if bad and len(viol) < 12:
+                if bad and kcls and ((kcls.startswith('K8') and bad.startswith('species set differs: missing') and bad.endswith('extra []')) or (kcls.startswith('K9') and bad.startswith('species listed twice'))):
+                    viol.append({'id': '%s-%s' % ('+'.join(seeds), '+'.join(rs)), 'cls': kcls, 'input': {'seeds': seeds, 'rules': [rules[r] for r in rs]}, 'observed': [bad, got], 'expected': sorted(want)})
+                elif bad and len(viol) < 16:
                     viol.append({'id': '%s-%s' % ('+'.join(seeds), '+'.join(rs)), 'input': {'seeds': seeds, 'rules': [rules[r] for r in rs]}, 'observed': bad if isinstance(got, str) else [bad, got],
                                  'expected': sorted(want),
                                  'script': "from rdkit import Chem\nfrom pgradd.RDkitWrapper.GenRxnNet import GenerateRxnNet\nprint([Chem.MolToSmiles(m) for m in GenerateRxnNet(%r, %r)])\n" % (list(seeds), [rules[r] for r in rs])})
